@@ -22,4 +22,3 @@ func verifAt(point string, args ...interface{}) {
 		f(point, args...)
 	}
 }
-
